@@ -39,6 +39,13 @@ type BFSConfig struct {
 	OnState func(inst Instance, path []uint32)
 	// KeyOf maps a violation message to the known-findings key.
 	KeyOf func(msg string) string
+	// Chain: when a newly found state has exactly one enabled event, keep
+	// stepping the same live instance (no replay) until a state with a choice,
+	// a known state or a dead end is reached. All states on the way are counted
+	// and checked; only the breadth-first order (and so the shortest-first
+	// guarantee and the per-depth statistics) is given up. OnState must not
+	// modify the instance. Ignored when MaxDepth is set.
+	Chain bool
 }
 
 type bfsNode struct {
@@ -152,8 +159,15 @@ func BFS(cfg BFSConfig) BFSStats {
 	frontier := []int32{0}
 	stats.States = 1
 	stats.PerDepth = append(stats.PerDepth, 1)
-	var transitions int64
+	var transitions, chained, found int64
 	var stop int32
+	addNode := func(parent int32, ev uint32) int32 {
+		nodesMu.Lock()
+		nodes = append(nodes, bfsNode{parent: parent, ev: ev})
+		id := int32(len(nodes) - 1)
+		nodesMu.Unlock()
+		return id
+	}
 	report := func(path []uint32, msg string) {
 		if cfg.Res.Violate(cfg.KeyOf(msg), msg, map[string]interface{}{
 			"path": path, "events": PathString(path, cfg.Describe)}) {
@@ -231,14 +245,50 @@ func BFS(cfg BFSConfig) BFSStats {
 							report(np, msg)
 							continue
 						}
-						if seen.add(fingerprint(inst.Canon())) {
+						if !seen.add(fingerprint(inst.Canon())) {
+							continue
+						}
+						atomic.AddInt64(&found, 1)
+						if cfg.OnState != nil {
+							cfg.OnState(inst, np)
+						}
+						if !cfg.Chain || cfg.MaxDepth > 0 {
 							localNext = append(localNext, bfsNode{parent: id, ev: ev})
-							if cfg.OnState != nil {
-								cfg.OnState(inst, np)
-							}
 							if len(localNext) >= 1024 {
 								flush()
 							}
+							continue
+						}
+						// chain mode
+						cur := addNode(id, ev)
+						for atomic.LoadInt32(&stop) == 0 {
+							ce := inst.Enabled()
+							if len(ce) != 1 {
+								if len(ce) > 1 {
+									nextMu.Lock()
+									next = append(next, cur)
+									nextMu.Unlock()
+								}
+								break
+							}
+							atomic.AddInt64(&transitions, 1)
+							np = append(np, ce[0])
+							if msg := inst.Step(ce[0]); msg != "" {
+								report(append([]uint32{}, np...), msg)
+								break
+							}
+							if msg := inst.Check(); msg != "" {
+								report(append([]uint32{}, np...), msg)
+								break
+							}
+							if !seen.add(fingerprint(inst.Canon())) {
+								break
+							}
+							atomic.AddInt64(&chained, 1)
+							if cfg.OnState != nil {
+								cfg.OnState(inst, np)
+							}
+							cur = addNode(cur, ce[0])
 						}
 					}
 				}
@@ -246,8 +296,9 @@ func BFS(cfg BFSConfig) BFSStats {
 			}()
 		}
 		wg.Wait()
-		stats.States += int64(len(next))
-		stats.PerDepth = append(stats.PerDepth, int64(len(next)))
+		newFound := atomic.SwapInt64(&found, 0) + atomic.SwapInt64(&chained, 0)
+		stats.States += newFound
+		stats.PerDepth = append(stats.PerDepth, newFound)
 		if atomic.LoadInt32(&stop) != 0 {
 			break
 		}
